@@ -213,6 +213,18 @@ class HoistSetupCallsIntoConditionals(RewritePattern):
             if block.get_operation_index(launch_op) < block.get_operation_index(op):
                 return
 
+        # all values used by the setup must already be available in front of the scf.if
+        if_op = op.in_state.owner
+        block = op.parent_block()
+        assert block is not None
+        # the setup must live next to the scf.if, otherwise it would escape its own control flow
+        if if_op.parent_block() is not block:
+            return
+        for val in op.values:
+            if isinstance(val, OpResult) and val.owner.parent_block() is block:
+                if block.get_operation_index(val.owner) >= block.get_operation_index(if_op):
+                    return
+
         # Step 2: Clone the op into the end of both branches
         for region in op.in_state.owner.regions:
             # grab the yield op:
